@@ -19,7 +19,7 @@ RULE = (
     "Cases = synthesized PCM recording (rate from 8..44100, width 1/2/4, 1-4 channels, window of 1..12 "
     "samples, loud/quiet windows built from a validity pattern biased to the split parameters, optional "
     "partial last window, channel-selection mode) x (min,max,silence) in windows passed as mid-window "
-    "durations x drop/strict x entry point (split(bytes), split(AudioRegion), AudioRegion.split, or a raw/wav file read lazily or eagerly). Oracle: "
+    "durations x drop/strict x entry point (split(bytes), split(AudioRegion), AudioRegion.split - the input region optionally carrying its own start and the call optionally carrying sampling_rate/sample_width/channels that disagree with the region -, or a raw/wav file read lazily or eagerly). Oracle: "
     "expected regions = reference segmentation of the per-window decisions of the exact energy oracle; "
     "each region's bytes == the input bytes of that window range, sr/sw/ch == input's, start == s*B/sr "
     "(1e-6 samples), |(end-start)-duration| <= 2ulp, duration == len/sr, regions strictly ordered and "
@@ -27,7 +27,8 @@ RULE = (
 )
 MUST_HIT = ["region_with_partial_last_window", "ch>=3", "sw1", "sw4", "window_of_1_sample",
             "entry_bytes", "entry_region_fn", "entry_region_method", "entry_raw_lazy_file", "entry_wav_lazy_file",
-            "entry_wav_file", "empty_input"]
+            "entry_wav_file", "empty_input", "start_beyond_one_hour", "hundred_regions", "input_region_with_start",
+            "input_region_with_conflicting_format_kwargs"]
 ASSUMPTIONS = [
     "exact energy oracle (vf/oracles.energy_db); synthesized windows lie >= 3 dB from the threshold (self-checked)",
     "reference segmentation (judged on its own by C04)",
@@ -67,10 +68,19 @@ def run_split(entry, data, rec, kw):
                 os.remove(path)
             except OSError:
                 pass
-    region = auditok.AudioRegion(data, sr, sw, ch)
+    opts = rec.get("region_opts") or {}
+    # the input region may itself carry a start (e.g. it came out of an earlier split): times are
+    # still measured from the beginning of *this* input; and its own format governs, whatever
+    # sampling_rate / sample_width / channels the caller passes along
+    region = auditok.AudioRegion(data, sr, sw, ch, opts["start"]) if opts.get("start") is not None else auditok.AudioRegion(data, sr, sw, ch)
+    extra = {}
+    for name, wrong in (("sampling_rate", sr + 3), ("sample_width", {1: 2, 2: 4, 4: 1}[sw]), ("channels", ch + 1),
+                        ("sr", sr * 2), ("sw", {1: 4, 2: 1, 4: 2}[sw]), ("ch", ch + 2)):
+        if name in (opts.get("conflict") or []):
+            extra[name] = wrong
     if entry == "region_fn":
-        return auditok.split(region, **kw)
-    return region.split(**kw)
+        return auditok.split(region, **kw, **extra)
+    return region.split(**kw, **extra)
 
 
 def expected_regions(data, rec, win, thr):
@@ -132,6 +142,17 @@ def check_case(case, rec_):
         classes.add("window_of_1_sample")
     if N == 0:
         classes.add("empty_input")
+    if rec.get("shape"):
+        classes.add("shape_" + rec["shape"])
+    ro = rec.get("region_opts") or {}
+    if entry.startswith("region") and ro.get("start"):
+        classes.add("input_region_with_start")
+    if entry.startswith("region") and ro.get("conflict"):
+        classes.add("input_region_with_conflicting_format_kwargs")
+    if regions and regions[-1].start >= 3599:
+        classes.add("start_beyond_one_hour")
+    if len(regions) >= 100:
+        classes.add("hundred_regions")
     if N % rec["B"] and exp and (exp[-1][1] + 1) * rec["B"] > N:
         classes.add("region_with_partial_last_window")
     nt = bool(exp) and not (rec["ch"] == 1 and rec["sw"] == 2 and rec["sr"] == 16000)
@@ -143,15 +164,25 @@ def explicit_cases():
     return [
         {"audio": base, "win": [1, 3, 1, False, False], "entry": "bytes"},
         {"audio": dict(base, sw=4, ch=4, B=3, pat="011", tail=[2, 1], al=100000, uc="mix"), "win": [1, 5, 0, True, False], "entry": "region_fn"},
+        {"audio": dict(base, region_opts={"start": 2.5, "conflict": ["sampling_rate", "ch"]}), "win": [1, 3, 1, False, False], "entry": "region_fn"},
+        {"audio": dict(base, region_opts={"start": 0.1, "conflict": ["sample_width", "channels", "sr"]}), "win": [1, 3, 1, False, False], "entry": "region_method"},
         {"audio": dict(base, sw=2, ch=1, B=4, pat="", tail=[0, 0]), "win": [1, 2, 0, False, True], "entry": "region_method"},
         {"audio": dict(base, sw=2, ch=2, B=5, pat="1", tail=[3, 1], uc=-1), "win": [1, 4, 1, False, False], "entry": "bytes"},
+        {"audio": dict(base, ch=1, pat="0" * 36000 + "0110", shape="late_activity"), "win": [1, 3, 0, False, False], "entry": "bytes"},
+        {"audio": dict(base, ch=2, sw=2, pat="10" * 120, shape="many_events"), "win": [1, 1, 0, False, False], "entry": "region_fn"},
     ]
 
 
 @st.composite
 def strategy(draw, maxwin):
-    c = draw(audio.audio_case(maxwin=maxwin))
+    c = draw(audio.audio_case(maxwin=maxwin, shapes=True))
     c["entry"] = draw(st.sampled_from(ENTRIES))
+    if c["entry"].startswith("region") and draw(st.booleans()):
+        c["audio"]["region_opts"] = {
+            "start": draw(st.one_of(st.none(), st.sampled_from([0.0, 2.5, 0.1, 1234.5]))),
+            "conflict": draw(st.lists(st.sampled_from(["sampling_rate", "sample_width", "channels", "sr", "sw", "ch"]),
+                                      unique=True, max_size=3)),
+        }
     return c
 
 
